@@ -145,6 +145,36 @@ func init() {
 		return "ok r=" + strings.Join(out, ",")
 	})
 	RegisterOp("simgenl", func(a []string) string { return RunOp("simgen " + strings.Join(a, " ")) })
+	// simshare <ver> <phone> <k:call> ...: ONE Option value terminal.WithHeader(ver, phone) from which several Terminals
+	// are made (terminal k is created by terminal.New(opt) when it is first named); call = D<cmd> | C<cmd>:<body> as
+	// in simcalls.  Every Terminal has its own header and counter: the answers are those of independent terminals.
+	RegisterOp("simshare", func(a []string) string {
+		opt := terminal.WithHeader(consts.ProtocolVersionType(atoi(a[0])), a[1])
+		terms := map[string]*terminal.Terminal{}
+		var out []string
+		for _, kc := range a[2:] {
+			p := strings.SplitN(kc, ":", 2)
+			t, ok := terms[p[0]]
+			if !ok {
+				t = terminal.New(opt)
+				terms[p[0]] = t
+			}
+			c := p[1]
+			var f []byte
+			if c[0] == 'D' {
+				f = t.CreateDefaultCommandData(consts.JT808CommandType(atoi(c[1:])))
+			} else {
+				q := strings.SplitN(c[1:], ":", 2)
+				f = t.CreateCommandData(consts.JT808CommandType(atoi(q[0])), Unhx(q[1]))
+			}
+			if f == nil {
+				out = append(out, "nil")
+			} else {
+				out = append(out, Hx(f))
+			}
+		}
+		return "ok r=" + strings.Join(out, ",")
+	})
 	// simseq <ver> <phone> <count> <cmd>: <count> consecutive default frames of one Terminal
 	RegisterOp("simseq", func(a []string) string {
 		t := newTerm(atoi(a[0]), a[1])
@@ -546,6 +576,62 @@ func c20(c *Ctx) {
 		c.Count("call sequence with nil calls")
 	}
 
+	// (2c) several Terminals made from ONE Option value (opt := terminal.WithHeader(...) once, terminal.New(opt) two or
+	// three times), their calls interleaved: every Terminal counts its serials on its own (seed C20-11: a header
+	// memoised in the option's closure makes them share one counter)
+	nshare := 60
+	if !quick {
+		nshare = 1200
+	}
+	for i := 0; i < nshare; i++ {
+		ver := 1 + g.rng.Intn(3)
+		ps := phonesFor(ver, false)
+		phone := ps[g.rng.Intn(len(ps))]
+		nt := 2 + g.rng.Intn(2)
+		n := 3 + g.rng.Intn(9)
+		type scall struct {
+			term int
+			cmd  uint16
+			body []byte
+			def  bool
+		}
+		var calls []scall
+		var toks []string
+		for k := 0; k < n; k++ {
+			tk := g.rng.Intn(nt)
+			if k < nt {
+				tk = k // every terminal is used, the later ones are created after the earlier ones generated frames
+			}
+			if g.rng.Intn(2) == 0 {
+				cmd := supported[g.rng.Intn(len(supported))]
+				calls = append(calls, scall{term: tk, cmd: cmd, def: true})
+				toks = append(toks, fmt.Sprintf("%d:D%d", tk, cmd))
+			} else {
+				cmd := uint16(1 + g.rng.Intn(65535))
+				b := g.rbytes(g.rng.Intn(30))
+				calls = append(calls, scall{term: tk, cmd: cmd, body: b})
+				toks = append(toks, fmt.Sprintf("%d:C%d:%s", tk, cmd, Hx(b)))
+			}
+		}
+		req := fmt.Sprintf("simshare %d %s %s", ver, phone, strings.Join(toks, " "))
+		ans := c.Do(req, true)
+		outs := strings.Split(strings.TrimPrefix(ans, "ok r="), ",")
+		if len(outs) != len(calls) {
+			viol("no-frame", "shared option: number of results differs from the number of calls", req, ans, fmt.Sprint(len(calls)))
+			continue
+		}
+		want := map[int]uint16{}
+		for k, cl := range calls {
+			if outs[k] == "nil" {
+				viol("no-frame", fmt.Sprintf("shared option: call %d produced no frame", k), req, "nil", "a frame")
+				continue
+			}
+			want[cl.term]++
+			checkFrame(req, ver, phone, cl.cmd, want[cl.term], Unhx(outs[k]), cl.body, cl.def)
+		}
+		c.Count("terminals sharing one Option value")
+	}
+
 	// (3) the serial wrap: 70 000 consecutive frames of one Terminal, each decoded
 	wrapVers := []int{2, 3}
 	if quick { // one run in the quick tier: the version varies with the seed
@@ -568,13 +654,15 @@ func c20(c *Ctx) {
 		c.Count("wrap run of 70000")
 	}
 
-	// (3b) custom bodies that do not fit the 10-bit length field (known finding C20/body-over-1023): the code frames
-	// them with an unmasked length, the decoder rejects the frame.  A repaired CreateCommandData may refuse (nil):
-	// accepted as well; op simgenl = simgen under the name of the finding's input class
-	for i := 0; i < 3; i++ {
+	// (3b) custom bodies that do not fit the 10-bit length field.  The known finding C20/body-over-1023 says exactly: the
+	// code frames them with an unmasked length and THE DECODER REJECTS THE FRAME (C20_body_1024_2047_rejected).  Only that
+	// is reported under the finding's signature.  A repaired CreateCommandData that refuses (nil) raises nothing.  A frame
+	// that DECODES - with the library's decoder or with the harness' own - to anything (necessarily another body, e.g. the
+	// first k bytes of a 1024+k-byte body: seed C20-12) is a plain violation.  op simgenl = simgen under the class name
+	for i := 0; i < 8; i++ {
 		ver := 1 + g.rng.Intn(3)
 		phone := g.digits(1 + g.rng.Intn(12))
-		body := g.rbytes(1024 + []int{0, 1, 1 + g.rng.Intn(3000)}[i])
+		body := g.rbytes(1024 + []int{0, 1, 1 + g.rng.Intn(3000), 2 + g.rng.Intn(60), 1 + g.rng.Intn(1023), 1023, 1024, 2048 + g.rng.Intn(900)}[i])
 		req := fmt.Sprintf("simgenl %d %s 0 %d %s", ver, phone, 0x0900, Hx(body))
 		ans := c.Do(req, true)
 		if ans == "nil" {
@@ -583,9 +671,21 @@ func c20(c *Ctx) {
 		}
 		f := Unhx(strings.TrimPrefix(ans, "ok frame="))
 		d, ok := RpDecode(f)
-		if !ok || !bytes.Equal(d.Body, body) {
-			viol("body-over-1023", "CreateCommandData frames a body of more than 1023 bytes: the frame is rejected by the decoder (or decodes to another body)",
-				req, fmt.Sprintf("decodable=%v", ok), "a frame that decodes with that body, or no frame")
+		jm := jt808.NewJTMessage()
+		err := jm.Decode(f)
+		switch {
+		case ok && bytes.Equal(d.Body, body) && err == nil && bytes.Equal(jm.Body, body):
+			c.Count("body over 1023 delivered") // impossible with a 10-bit length field; would be a repair by other means
+		case err == nil || ok:
+			got := jm.Body
+			if err != nil {
+				got = d.Body
+			}
+			viol("body", "a frame generated for a body over 1023 bytes is ACCEPTED by the decoder with a different body", req,
+				fmt.Sprintf("library err=%v, reference decodable=%v, body of %d bytes: %s", err, ok, len(got), Trunc(Hx(got), 80)), "rejected (Err), as C20_body_1024_2047_rejected states, or no frame")
+		default:
+			viol("body-over-1023", "CreateCommandData frames a body of more than 1023 bytes with an unmasked length: the frame is rejected by the decoder",
+				req, fmt.Sprintf("library err=%v, reference decodable=%v", err, ok), "a frame that decodes with that body, or no frame")
 		}
 		c.Count("body over 1023")
 	}
